@@ -50,11 +50,16 @@ SCHEMAS = {
                          'fields': {'bp_version': 'Int', 'bundle_flags': 'Int', 'crc_type': 'Int',
                                     'destination': 'Opt[Str]', 'source': 'Opt[Str]', 'report_to': 'Opt[Str]',
                                     'create_ts': 'Pkt[Timestamp]', 'lifetime': 'Int', 'fragment_offset': 'Int',
-                                    'total_app_data_len': 'Int', 'crc_value': 'Opt[Bytes]', 'payload': 'Int'}},
+                                    'total_app_data_len': 'Int', 'crc_value': 'Opt[Bytes]', 'payload': 'Int',
+                                    # the items a decoded block was received as (AbstractBlock.do_dissect); None for a
+                                    # block that was built, or whose CRC was updated since
+                                    '_rx_items': 'Opt[Any[cboritem]]'},
+                         'defaults': {'_rx_items': None}},
     'pkt:CanonicalBlock': {'pyclass': ('bp.encoding.blocks', 'CanonicalBlock'), 'pkt': True,
                            'fields': {'type_code': 'Opt[Int]', 'block_num': 'Opt[Int]', 'block_flags': 'Int',
                                       'crc_type': 'Int', 'btsd': 'Opt[Bytes]', 'crc_value': 'Opt[Bytes]',
-                                      'payload': 'Int', '_pcls': 'Int'}},
+                                      'payload': 'Int', '_pcls': 'Int', '_rx_items': 'Opt[Any[cboritem]]'},
+                           'defaults': {'_rx_items': None}},
     # block-type-specific data classes handled when forwarding
     'pkt:PreviousNodeBlock': {'pyclass': ('bp.encoding.blocks', 'PreviousNodeBlock'), 'pkt': True,
                               'fields': {'node': 'Opt[Str]', 'payload': 'Int'}},
@@ -94,6 +99,10 @@ GHOST = {
     'consumed': 'Set[Ref[Ctr]]',
     # some step of a processing chain raised during this handler run
     'step_failed': 'Bool',
+    # the node's clock as Agent.timestamp (Timestamper.__call__) reads it: number of readings made in this handler run and
+    # the DTN time of the latest one
+    'clock_reads': 'Int',
+    'clock_last': 'Int',
 }
 
 NOTES = {
